@@ -3,37 +3,55 @@
 #   1. regenerate coq/Gen/*.v with the fail-closed translators (from /repo sources)
 #   2. full .vo build of the Coq development (make -k: an unprovable regenerated obligation must
 #      not stop the executable model from building)
-#   3. extraction (ExtrOcamlBasic only) and the OCaml correspondence driver
+#   3. extraction (ExtrOcamlBasic only) of the model files that compiled, and the OCaml driver
 # Serialised with a lock so concurrent checks do not race.  Prints BUILD-FAIL lines for .v files
-# whose .vo is missing afterwards; exit status 0 unless the model/driver itself cannot be built.
+# whose .vo is missing afterwards; exit status 0 unless the driver itself cannot be built.
 set -u
-cd /verif
-mkdir -p build
-exec 9>/verif/build/.lock
+ROOT=$(cd "$(dirname "$0")/.." && pwd)
+REPO=${VERIF_REPO:-/repo}
+cd "$ROOT"
+mkdir -p build ocaml/gen
+exec 9>$ROOT/build/.lock
 flock 9
-export PYTHONPATH=/repo PYTHONHASHSEED=0
+export PYTHONPATH=$REPO VERIF_REPO=$REPO PYTHONHASHSEED=0
+: > build/translators.log
 for t in translator/tr_*.py; do
   [ -e "$t" ] || continue
   timeout 120 /venv/bin/python "$t" >> build/translators.log 2>&1 || echo "TRANSLATOR-FAIL $t"
 done
-python3 tools/gen_extraction.py
-cd /verif/coq
-{ echo "-Q . GV"; echo "-arg -w -arg -all"; ls Common/*.v Model/*.v Gen/*.v Proofs/*.v Props/*.v Extraction.v 2>/dev/null; } > _CoqProject.new
+cd $ROOT/coq
+{ echo "-Q . GV"; echo "-arg -w -arg -all"; ls Common/*.v Model/*.v Gen/*.v Proofs/*.v Props/*.v 2>/dev/null; } > _CoqProject.new
 if ! cmp -s _CoqProject.new _CoqProject || [ ! -e Makefile ]; then mv _CoqProject.new _CoqProject; coq_makefile -f _CoqProject -o Makefile > /dev/null; else rm -f _CoqProject.new; fi
-timeout 3000 make -k -j16 > /verif/build/make.log 2>&1
-for f in Common/*.v Model/*.v Gen/*.v Proofs/*.v Props/*.v Extraction.v; do
+timeout 3000 make -k -j16 > $ROOT/build/make.log 2>&1
+for f in Common/*.v Model/*.v Gen/*.v Proofs/*.v Props/*.v; do
   [ -e "$f" ] || continue
   [ -e "${f}o" ] || echo "BUILD-FAIL $f"
 done
-mkdir -p /verif/ocaml/gen
-if ls /verif/coq/*.ml > /dev/null 2>&1; then rm -f /verif/ocaml/gen/*; mv /verif/coq/*.ml /verif/coq/*.mli /verif/ocaml/gen/; fi
-cd /verif/ocaml
+# extraction
+python3 $ROOT/tools/gen_extraction.py
+newest=$(ls -t Common/*.vo Model/*.vo Gen/*.vo 2>/dev/null | head -1)
+if [ ! -e Extraction.vo ] || [ Extraction.v -nt Extraction.vo ] || [ -n "$newest" -a "$newest" -nt Extraction.vo ] || [ -z "$(ls $ROOT/ocaml/gen/*.ml 2>/dev/null)" ]; then
+  rm -f ./*.ml ./*.mli
+  if timeout 600 coqc -w -all -Q . GV Extraction.v > $ROOT/build/extraction.log 2>&1; then
+    rm -f $ROOT/ocaml/gen/*; mv ./*.ml ./*.mli $ROOT/ocaml/gen/
+  else
+    echo "BUILD-FAIL Extraction.v"
+  fi
+fi
+cd $ROOT/ocaml
 sig=$(cat gen/*.ml gen/*.mli common.ml drv_*.ml main.ml 2>/dev/null | md5sum | cut -d' ' -f1)
 if [ ! -x main ] || [ "$(cat .sig 2>/dev/null)" != "$sig" ]; then
-  rm -f main
+  rm -f main *.cmx *.cmi *.o gen/*.cmx gen/*.cmi gen/*.o
   srcs=$(cd gen && ocamlfind ocamldep -sort *.mli *.ml | tr ' ' '\n' | grep . | sed 's#^#gen/#' | tr '\n' ' ')
-  if timeout 600 ocamlfind ocamlopt -O2 -w -a -I gen $srcs common.ml drv_*.ml main.ml -o main > /verif/build/ocaml.log 2>&1 \
-     || timeout 600 ocamlfind ocamlopt -w -a -I gen $srcs common.ml drv_*.ml main.ml -o main > /verif/build/ocaml.log 2>&1; then
+  : > $ROOT/build/ocaml.log
+  ok=1
+  timeout 600 ocamlfind ocamlopt -O2 -w -a -I gen -c $srcs common.ml >> $ROOT/build/ocaml.log 2>&1 || ok=0
+  objs=""
+  for d in drv_*.ml; do
+    if timeout 300 ocamlfind ocamlopt -w -a -I gen -c "$d" >> $ROOT/build/ocaml.log 2>&1; then objs="$objs ${d%.ml}.cmx"; else echo "DRIVER-PART-FAIL $d"; fi
+  done
+  genobjs=$(echo $srcs | tr ' ' '\n' | grep '\.ml$' | sed 's/\.ml$/.cmx/' | tr '\n' ' ')
+  if [ $ok = 1 ] && timeout 600 ocamlfind ocamlopt -w -a -I gen $genobjs common.cmx $objs main.ml -o main >> $ROOT/build/ocaml.log 2>&1; then
     echo "$sig" > .sig
   else
     echo "DRIVER-FAIL (see build/ocaml.log)"; exit 2
